@@ -30,7 +30,7 @@ Obs(a, s, q) == [act |-> a, sb |-> s, inbox |-> Len(q)]
 
 Edge(op, id, did, v, ok, none, m) ==
   [op |-> op, id |-> id, did |-> did, v |-> v, ok |-> ok, none |-> none, kind |-> m.k, mid |-> m.id, mv |-> m.v,
-   middid |-> FALSE, midop |-> "", midid |-> 0, midv |-> 0]
+   middid |-> FALSE, midop |-> "", midid |-> 0, midv |-> 0, midhanded |-> FALSE]
 NoMsg == [k |-> "", id |-> 0, v |-> 0]
 
 \* a step is accepted iff the contract raises none of the first two clauses
